@@ -5,7 +5,7 @@ import os
 from ..astutil import calls, kwarg, local_defs, expanded_facts
 from ..facts import Facts, fact_texts
 from ..model import AnalysisError, src, walk_own
-from .cli_common import MAIN, MainAnalysis
+MAIN = 'python_minifier.__main__'
 
 MINIFY = 'python_minifier.minify'
 
@@ -46,63 +46,42 @@ def run(model, rep):
     rep.check(isinstance(a0, ast.Name) and a0.id == srcp and only_param, 'C16.BYTES', mi.loc(first), src(first),
               'the caller\'s source object itself is parsed', 'the source is transformed before it is parsed (argument %s; definitions of %s: %d)' % (src(a0), srcp, len(defs.get(srcp, []))),
               key='C16.BYTES|parse')
-    A = MainAnalysis(model)
-    for fi in (A.main,):
-        for c in A.do_minify_calls(fi):
-            a = c.args[0] if c.args else None
-            ok = isinstance(a, ast.Name) and A.defs[fi.qual].get(a.id) and all(A.is_binary_read(fi, d) for d in A.defs[fi.qual][a.id] if isinstance(d, ast.AST)) \
-                and all(isinstance(d, ast.AST) for d in A.defs[fi.qual][a.id])
-            rep.check(bool(ok), 'C16.BYTES', fi.loc(c), src(c), 'source read in binary mode', 'the CLI does not hand the raw bytes of the file to do_minify', key='C16.BYTES|cli|' + src(c))
-    rep.floor('C16.BYTES', 3)
+    # the command line tool: evaluated end to end (pmstatic.clirun) on sources with a BOM, CRLF / CR line ends, a latin-1 cookie, undecodable bytes
+    from .. import clirun
+    main = model.func(MAIN + '.main')
+    tricky = [('UTF-8 BOM and CRLF', b'\xef\xbb\xbfx = 1\r\ny = 2\r\n'), ('latin-1 cookie, CR line ends', b'# -*- coding: latin-1 -*-\rx = "\xe9"\r'),
+              ('bare CR and form feed', b'a = 1\r\x0cb = 2\r'), ('bytes that are not UTF-8', b'x = "\xff\xfe"\n'), ('NUL byte', b'x = 1\x00\n'), ('empty', b'')]
+    for (what, data) in tricky:
+        for via in ('file', 'stdin'):
+            sc = clirun.Scenario(['m.py'] if via == 'file' else ['-'], files={'m.py': data}, stdin=data, default_answer=('ok', ''), env={'PYMINIFY_FORCE_BEST_EFFORT': '1'})
+            r = clirun.run(model, sc)
+            got = [ev[1] for ev in r.events('minify')]
+            modes_ = [ev[2] for ev in r.events('open') if ev[1] == 'm.py']
+            ok = got == [data] and all(isinstance(m_, str) and 'b' in m_ for m_ in modes_)
+            rep.check(ok, 'C16.BYTES', main.loc(), 'pyminify %s with %s' % ('m.py' if via == 'file' else '-', what), 'minify() receives exactly the bytes of the source',
+                      'minify() receives %r for the source bytes %r (open modes %s): decoding or newline translation happens before the interpreter sees the source' % (got, data, modes_),
+                      key='C16.BYTES|cli|%s|%s' % (via, what))
+    rep.floor('C16.BYTES', 10)
 
-    # ---- ENC (same obligation as C13.OUT return provenance, reported here under C16)
-    dm = A.do_minify
-    DF = A.facts[dm.qual]
-    ddefs = A.defs[dm.qual]
-    mcall = A.minify_call()
-    for (ret, facts) in DF.returns:
-        e = ret.value
-        if isinstance(e, ast.Name) and len(ddefs.get(e.id, [])) == 1 and isinstance(ddefs[e.id][0], ast.AST):
-            e = ddefs[e.id][0]
-        ok = isinstance(e, ast.Call) and isinstance(e.func, ast.Attribute) and e.func.attr == 'encode'
-        if ok:
-            a = e.args[0] if e.args else kwarg(e, 'encoding')
-            enc = a.value if isinstance(a, ast.Constant) else ('utf-8' if a is None else None)
-            ok = isinstance(enc, str) and enc.lower().replace('_', '-') in ('utf-8', 'utf8') and kwarg(e, 'errors', 1) is None
-        rep.check(ok, 'C16.ENC', dm.loc(ret), 'return ' + src(ret.value), 'strict UTF-8 encoding', 'output is not the strict UTF-8 encoding of the result: ' + src(e), key='C16.ENC|' + src(ret.value))
-    rep.floor('C16.ENC', 1)
+    # ---- ENC: what is written is the strict UTF-8 encoding of the answer of minify()
+    for (what, text, want) in (('non-ASCII text', 'x="\xe9\u20ac\U0001f600"', 'x="\xe9\u20ac\U0001f600"'.encode('utf-8')), ('ASCII text', 'x=1', b'x=1'), ('text with a lone surrogate', 'x="\udc80"', None)):
+        for via, argv in (('stdout', ['m.py']), ('--output', ['m.py', '--output', 'o.py']), ('--in-place', ['m.py', '--in-place'])):
+            SRC = b'x = "................................................"\n'
+            sc = clirun.Scenario(argv, files={'m.py': SRC}, answers={SRC: ('ok', text)})
+            r = clirun.run(model, sc)
+            written = [ev[1] for ev in r.events('stdout-bytes')] + [ev[3] for ev in r.events('write')]
+            if want is None:
+                ok = r.failed() and not written
+                why = 'a result that cannot be encoded as UTF-8 is written as %r (%s) instead of failing' % (written, r.outcome)
+            else:
+                ok = written == [want] and not r.failed()
+                why = '%r is written, expected the UTF-8 encoding %r' % (written, want)
+            rep.check(ok, 'C16.ENC', main.loc(), '%s to %s' % (what, via), 'strict UTF-8 encoding of the result', why, key='C16.ENC|%s|%s' % (what, via))
+    rep.floor('C16.ENC', 9)
 
     # ---- SHEB
     fs = model.func('python_minifier._find_shebang')
-    SF = Facts(fs.node)
-    sdefs = local_defs(fs.node)
-    pats = {}
-    for c in calls(fs.node):
-        if src(c.func) in ('re.match', 're.search', 're.compile', 're.fullmatch') and c.args:
-            kind, text = pattern_text(c.args[0])
-            facts = SF.facts_at(c)
-            bytes_arm = facts is not None and ('isinstance(%s, bytes)' % fs.positional[0], True) in facts
-            pats['bytes' if bytes_arm else 'str'] = (kind, text, src(c.func), c)
-    ok = set(pats) == {'bytes', 'str'} and pats['bytes'][1] == pats['str'][1] and pats['bytes'][0] == 'bytes' and pats['str'][0] == 'str' and pats['bytes'][2] == pats['str'][2]
-    rep.check(ok, 'C16.SHEB', fs.loc(), 'patterns %s' % {k: v[:3] for k, v in pats.items()}, 'text and bytes arms use the same pattern',
-              'the text and bytes arms of the shebang finder differ: %s' % {k: v[:3] for k, v in pats.items()}, key='C16.SHEB|arms')
-    # (which first line the pattern selects is decided by the enumeration in sheb_enum)
-    # returns of _find_shebang: group() of the match (decoded for bytes) or None
-    for (ret, facts) in SF.returns:
-        v = ret.value
-        t = src(v)
-        if v is None or (isinstance(v, ast.Constant) and v.value is None):
-            continue
-        base = v
-        decoded = False
-        if isinstance(base, ast.Call) and isinstance(base.func, ast.Attribute) and base.func.attr == 'decode':
-            decoded = True
-            base = base.func.value
-        whole = isinstance(base, ast.Call) and isinstance(base.func, ast.Attribute) and base.func.attr == 'group' and \
-            (not base.args or (isinstance(base.args[0], ast.Constant) and base.args[0].value == 0))
-        bytes_arm = facts is not None and ('isinstance(%s, bytes)' % fs.positional[0], True) in facts
-        rep.check(whole and decoded == bytes_arm, 'C16.SHEB', fs.loc(ret), 'return ' + t, 'whole match returned%s' % (' (decoded)' if decoded else ''),
-                  'shebang finder does not return the whole matched line as text', key='C16.SHEB|ret|' + ('bytes' if bytes_arm else 'str'))
+    # (what the finder returns for text and bytes sources is decided by the enumeration in sheb_enum)
     # returns of minify
     unparse_q = 'python_minifier.unparse'
     n_ret = 0
